@@ -266,6 +266,9 @@ pub fn c03_mint_and_limits(ctx: &mut Ctx, sim: &Sim, _p: &Node, result: &Executi
     }
     // limits
     let gas: u64 = result.tx_status.iter().map(total_gas).sum();
+    if gas.saturating_mul(2) >= sim.spec.params.block_gas_limit() {
+        ctx.probe("block_used_gas_at_least_half_of_limit");
+    }
     ctx.check("C03", "block-gas-limit-exceeded", gas <= sim.spec.params.block_gas_limit(), || {
         format!("total gas used {gas} > block gas limit {}", sim.spec.params.block_gas_limit())
     });
@@ -305,7 +308,12 @@ pub fn expectations(ctx: &mut Ctx, sim: &Sim, cands: &[GenTx], result: &Executio
         let first = seen.insert(id);
         match (&c.expect, included.get(&id)) {
             (Expect::Success, Some(true)) => ctx.probe("included_success"),
-            (Expect::Failure, Some(false)) => ctx.probe("included_failure"),
+            (Expect::Failure, Some(false)) => {
+                if c.desc.starts_with("gas-burner") {
+                    ctx.probe("gas_burner_executed");
+                }
+                ctx.probe("included_failure")
+            }
             (Expect::Skipped, None) => ctx.probe("skipped_as_expected"),
             (Expect::Skipped, Some(_)) if first && !sim.executed_ids.contains(&id) => {
                 // an invalid / expired / double-spending transaction was executed
@@ -964,6 +972,24 @@ pub fn after_commit_da(sim: &mut Sim, result_events: &[ExecEvent]) {
 /// The same inputs/outputs/limits with the script replaced by `asm::script_log_block_time`,
 /// re-signed by the wallets that own the inputs.
 fn time_reading_variant(spec: &chainkit::spec::ChainSpec, g: &GenTx) -> Option<Transaction> {
+    script_variant(spec, g, chainkit::asm::script_log_block_time(), None)
+}
+
+/// The same transaction with a script that burns its whole gas limit (status: failed, used
+/// gas = everything the transaction may use): gives the block gas limit something to limit.
+pub fn gas_burner_variant(spec: &chainkit::spec::ChainSpec, g: &GenTx) -> Option<Transaction> {
+    // three quarters of what one transaction may use at most: two of them exceed the smallest
+    // block gas limit the specs have
+    let limit = spec.params.tx_params().max_gas_per_tx() / 4 * 3;
+    script_variant(spec, g, chainkit::asm::script_burn_all_gas(), Some(limit))
+}
+
+fn script_variant(
+    spec: &chainkit::spec::ChainSpec,
+    g: &GenTx,
+    script: Vec<u8>,
+    gas_limit: Option<u64>,
+) -> Option<Transaction> {
     use fuel_core_types::fuel_tx::{
         Signable,
         field::{
@@ -974,12 +1000,20 @@ fn time_reading_variant(spec: &chainkit::spec::ChainSpec, g: &GenTx) -> Option<T
     let Transaction::Script(mut s) = g.tx.clone() else {
         return None;
     };
-    *s.script_mut() = chainkit::asm::script_log_block_time();
+    *s.script_mut() = script;
+    if let Some(l) = gas_limit {
+        use fuel_core_types::fuel_tx::field::ScriptGasLimit as _;
+        *s.script_gas_limit_mut() = l;
+    }
     *s.script_data_mut() = Vec::new();
     let chain_id = spec.params.chain_id();
+    // the builder cached the id of the original script: recompute before and after signing
+    use fuel_core_types::fuel_tx::Cacheable;
+    s.precompute(&chain_id).ok()?;
     for w in &spec.wallets {
         s.sign_inputs(&w.secret, &chain_id);
     }
+    s.precompute(&chain_id).ok()?;
     Some(s.into())
 }
 
